@@ -24,7 +24,7 @@ import (
 // field has a value computed from a bits field of an operand.
 func C12width(p *load.Program, run *report.Run) {
 	const rule = "fold-width-from-receiver"
-	run.Rule(rule, "in compiler/mpa, in every method of *Int that takes two *Int operands, no store to the receiver's bits field depends on a load of the bits field of an operand (the result keeps the width mpa.New was given)")
+	run.Rule(rule, "in compiler/mpa, in every method of *Int (exported or not) that takes two or more *Int operands, no store to the receiver's bits field depends on a load of the bits field of an operand (the result keeps the width mpa.New was given)")
 	var fns []*ssa.Function
 	for _, fn := range p.AllFunctions() {
 		if fn.Pkg == nil || fn.Pkg.Pkg.Path() != load.Module+"/compiler/mpa" || fn.Blocks == nil || fn.Signature.Recv() == nil || strings.HasSuffix(p.Fset.Position(fn.Pos()).Filename, "_test.go") {
@@ -43,10 +43,16 @@ func C12width(p *load.Program, run *report.Run) {
 	}
 	methods := 0
 	for _, fn := range fns {
-		if len(fn.Params) != 3 || !isInt(fn.Params[0].Type()) || !isInt(fn.Params[1].Type()) || !isInt(fn.Params[2].Type()) {
+		if len(fn.Params) < 3 || !isInt(fn.Params[0].Type()) {
 			continue
 		}
-		if !token.IsExported(fn.Name()) {
+		var operands []ssa.Value
+		for _, prm := range fn.Params[1:] {
+			if isInt(prm.Type()) {
+				operands = append(operands, prm)
+			}
+		}
+		if len(operands) < 2 {
 			continue
 		}
 		methods++
@@ -71,8 +77,12 @@ func C12width(p *load.Program, run *report.Run) {
 					}
 					seen[v] = true
 					if ld, ok := v.(*ssa.UnOp); ok && ld.Op == token.MUL {
-						if f2, ok := ld.X.(*ssa.FieldAddr); ok && structFieldName(f2.X.Type(), f2.Field) == "bits" && (f2.X == ssa.Value(fn.Params[1]) || f2.X == ssa.Value(fn.Params[2])) {
-							return true
+						if f2, ok := ld.X.(*ssa.FieldAddr); ok && structFieldName(f2.X.Type(), f2.Field) == "bits" {
+							for _, o := range operands {
+								if f2.X == o {
+									return true
+								}
+							}
 						}
 					}
 					if in, ok := v.(ssa.Instruction); ok {
